@@ -289,7 +289,7 @@ def run_check(pid: str, tier: str, base_seed: int, runs: Optional[int], jobs: in
     print("vsim: property=%s tier=%s VERIF_SEED=%d runs=%d jobs=%d repo=%s" % (pid, tier, base_seed, n, jobs, REPO))
     sys.stdout.flush()
 
-    known = load_known(pid)
+    known = [] if os.environ.get("VERIF_IGNORE_KNOWN") else load_known(pid)
     open_sigs: Dict[str, Dict[str, Any]] = {}
     for e in known:
         if e.get("status") == "open":
@@ -305,8 +305,12 @@ def run_check(pid: str, tier: str, base_seed: int, runs: Optional[int], jobs: in
         if e.get("status") != "open" or not e.get("replay"):
             continue
         sigs = e.get("signatures") or [e.get("signature")]
-        with open(os.path.join(VERIF, e["replay"]), "r", encoding="utf-8") as fh:
-            doc = json.load(fh)
+        try:
+            with open(os.path.join(VERIF, e["replay"]), "r", encoding="utf-8") as fh:
+                doc = json.load(fh)
+        except OSError:
+            print("note: stored program of known finding %s is missing (%s)" % (sigs[0], e["replay"]))
+            continue
         out = safe_execute(mod, doc["program"])
         hit = [sg for sg in sigs if _same(out, sg)]
         if hit:
